@@ -601,7 +601,10 @@ func cmdRelock(args []string) {
 		fmt.Printf("%s: %d units, %d discharged, %d undecided\n", prop, len(lp), nd, nu)
 	}
 	data, _ := json.MarshalIndent(ledger, "", " ")
-	os.WriteFile(filepath.Join(verifDir, "obligations.lock.json"), data, 0o644)
+	tmp := filepath.Join(verifDir, ".obligations.lock.json.tmp")
+	if os.WriteFile(tmp, data, 0o644) == nil {
+		os.Rename(tmp, filepath.Join(verifDir, "obligations.lock.json")) // atomic: checks running concurrently never read a partial ledger
+	}
 }
 
 func isSafetyKind(k string) bool {
